@@ -42,7 +42,6 @@ def opSafeB (w : World) : Op → Bool
   | .hlconvert h blen nblk => decide (1 ≤ blen) && decide (1 ≤ nblk) && aloneB w h
   | .seek h _ _ => aloneB w h
   | .write h bs => !bs.isEmpty && aloneB w h
-  | .trunc h _ => match w.acc h with | some a => !a.special | none => true
   | .deldd fi tag ref =>
     userKeyB (tag, ref) && (match (w.file fi).select tag ref with | some s => noHandleOnB w fi s | none => true)
   | _ => true
@@ -158,10 +157,7 @@ theorem opSafeB_sound (w : World) (op : Op) (h : opSafeB w op = true) : OpSafe w
   | write h' bs =>
     simp only [opSafeB, Bool.and_eq_true, Bool.not_eq_true', List.isEmpty_eq_false_iff] at h
     exact ⟨h.1, fun _ _ _ _ _ _ _ => aloneB_sound w h' h.2, fun _ _ _ => aloneB_sound w h' h.2⟩
-  | trunc h' n =>
-    intro a ha
-    simp only [opSafeB, ha, Bool.not_eq_true'] at h
-    exact h
+  | trunc h' n => trivial
   | endaccess h' => trivial
   | deldd fi tag ref =>
     simp only [opSafeB, Bool.and_eq_true] at h
